@@ -29,6 +29,10 @@ def run(ctx):
         "cancelling the context of a worker whose body has already returned is not counted as a cancel",
         "the package-level functions (default instance) are driven in child processes of the harness, one scenario per process, "
         "and judged by the same reference simulator, history predicate and Coq model as a New() instance",
+        "worker names: the scripts, the reference simulator and the Coq model use abstract name ids (names are only compared for equality); "
+        "the concrete strings are a parameter of each case, taken in rotation from four palettes: ordinary short names; the empty "
+        "name with names differing only in case / leading / trailing space; names that are prefixes of one another (with the empty "
+        "name); 1000-byte names differing in the last byte / length / case (with the empty name) - coverage keys names:*",
         "scripted runs use <= 12 workers per daemon (sort.Slice is an insertion sort there; the order among equal shutdown orders is not compared)",
     ]
 
